@@ -513,6 +513,7 @@ impl QueuingExecutor {
 // ================================================================== capability/channel.rs
 pub mod channel {
     use super::*;
+    use std::sync::Arc;
 //@extract id=channel.Receiver file=crux_core/src/capability/channel.rs item="struct Receiver"
 //@rule X2.vis 1 s/\binner:/pub inner:/
 //@end
@@ -554,6 +555,73 @@ pub mod channel {
                 r is Some ==> popped(*old(w), *final(w), old(self).receiver.inner.role(), val_id(r->0)), // [C01/Drain::next/takes-exactly-the-head]
                 r is None ==> *final(w) == *old(w), // [C01/Drain::next/empty-changes-nothing]
 //@rule X6.world * s/\.receive\(\)/.receive(Tracked(w))/
+//@end
+    }
+
+    // ---- the sending side: Sender<T> = Arc<dyn SenderInner<T>>, either the crossbeam sender
+    // itself or a MappedInner that maps the value once and forwards it (std Arc here: vstd
+    // specifies Arc::new / Arc::clone and handles the unsizing coercion to `dyn`)
+//@extract id=channel.SenderInner file=crux_core/src/capability/channel.rs item="trait SenderInner"
+//@rule X2.vis 1 s/^trait SenderInner/pub trait SenderInner/
+//@rule X1.trait-contract 1 s~fn send\(&self, t: T\);~/// values this sender can take (a mapped sender: those its function accepts)\n        spec fn accepts(&self, t: T) -> bool;\n        /// what sending t does to the queues\n        spec fn effect(&self, t: T, w1: World, w2: World) -> bool;\n        fn send(&self, Tracked(w): Tracked<&mut World>, t: T)\n            requires self.accepts(t),\n            ensures self.effect(t, *old(w), *final(w));~
+//@end
+
+    impl<T> SenderInner<T> for crossbeam_channel::Sender<T> {
+        open spec fn accepts(&self, t: T) -> bool { true }
+        /// exactly this value is appended, once, to the queue this channel end belongs to
+        open spec fn effect(&self, t: T, w1: World, w2: World) -> bool { pushed(w1, w2, self.role(), val_id(t)) }
+//@extract id=SenderInner_for_crossbeam::send file=crux_core/src/capability/channel.rs within="impl<T> SenderInner<T> for crossbeam_channel::Sender<T>" item="fn send" props=C01+C03
+//@expect fn send(&self, t: T)
+//@sig fn send(&self, Tracked(w): Tracked<&mut World>, t: T)
+//@rule X6.world 1 s/crossbeam_channel::Sender::send\(self, t\)/crossbeam_channel::Sender::send(self, Tracked(w), t)/
+//@end
+    }
+
+//@extract id=channel.MappedInner file=crux_core/src/capability/channel.rs item="struct MappedInner"
+//@contract
+    #[verifier::reject_recursive_types(T)]
+//@rule X3.auto-traits 1 s/ \+ Send \+ Sync>/>/
+//@rule X2.vis * s/\n(\s+)(sender|func):/\n\1pub \2:/
+//@end
+
+    impl<F, T, U> SenderInner<U> for MappedInner<T, F>
+    where
+        F: Fn(U) -> T,
+    {
+        open spec fn accepts(&self, u: U) -> bool {
+            call_requires(self.func, (u,)) && forall|t: T| #![auto] call_ensures(self.func, (u,), t) ==> self.sender.accepts(t)
+        }
+        /// the value is passed through the mapping function once and what it returns is sent on, once
+        open spec fn effect(&self, u: U, w1: World, w2: World) -> bool {
+            exists|t: T| #[trigger] call_ensures(self.func, (u,), t) && self.sender.effect(t, w1, w2)
+        }
+//@extract id=MappedInner::send file=crux_core/src/capability/channel.rs within="impl<F, T, U> SenderInner<U> for MappedInner<T, F>" item="fn send" props=C01+C03
+//@expect fn send(&self, value: U)
+//@sig fn send(&self, Tracked(w): Tracked<&mut World>, value: U)
+//@end
+    }
+
+//@extract id=channel.Sender file=crux_core/src/capability/channel.rs item="struct Sender"
+//@contract
+    #[verifier::reject_recursive_types(T)]
+//@rule X3.auto-traits 1 s/ \+ Send \+ Sync>/>/
+//@rule X2.vis 1 s/\binner:/pub inner:/
+//@end
+
+    impl<T> Sender<T> {
+//@extract id=channel::Sender::send file=crux_core/src/capability/channel.rs within="impl<T> Sender<T>" item="fn send" props=C01+C03
+//@expect pub fn send(&self, t: T)
+//@sig pub fn send(&self, Tracked(w): Tracked<&mut World>, t: T)
+//@contract
+            requires
+                self.inner.accepts(t),
+            ensures
+                self.inner.effect(t, *old(w), *final(w)), // [C01+C03/channel::Sender::send/does-exactly-what-its-inner-sender-does-once]
+//@end
+
+//@extract id=channel::Sender::map_input file=crux_core/src/capability/channel.rs within="impl<T> Sender<T>" item="fn map_input" props=C01
+//@expect pub fn map_input<NewT, F>(&self, func: F) -> Sender<NewT> where F: Fn(NewT) -> T + Send + Sync + 'static,
+//@sig pub fn map_input<NewT, F>(&self, func: F) -> (r: Sender<NewT>) where F: Fn(NewT) -> T + 'static, T: 'static, NewT: 'static,
 //@end
     }
 
